@@ -87,7 +87,7 @@ def extra_bodies(valid: bytes) -> list[tuple[str, bytes]]:
 # -- documented media types ---------------------------------------------------------------------------------------------------
 
 CONTENT_VARIANTS = ["json_params_key", "json_upper_key", "app_wildcard", "any_json", "json_any", "plain_json", "json_noschema",
-                    "empty_content"]
+                    "empty_content", "any_appwild", "appwild_any", "any_appwild_json"]
 PRODUCES = {
     "json_params": ["application/json; charset=utf-8"], "json_upper": ["Application/JSON"], "app_wildcard": ["application/*"],
     "any": ["*/*"], "empty": [],
@@ -106,6 +106,12 @@ def content_object(variant: str, a: Any) -> dict | None:
         return {"*/*": {"schema": b}, "application/json": {"schema": a}}
     if variant == "json_any":
         return {"application/json": {"schema": a}, "*/*": {"schema": b}}
+    if variant == "any_appwild":  # two wildcards of different specificity, both writing orders; no exact entry
+        return {"*/*": {"schema": b}, "application/*": {"schema": a}}
+    if variant == "appwild_any":
+        return {"application/*": {"schema": a}, "*/*": {"schema": b}}
+    if variant == "any_appwild_json":  # all three levels of specificity, least specific first
+        return {"*/*": {"schema": b}, "application/*": {"schema": b}, "application/json": {"schema": a}}
     if variant == "plain_json":
         return {"text/plain": {}, "application/json": {"schema": a}}
     if variant == "json_noschema":
